@@ -25,7 +25,7 @@ ANCHORS = [
 OPS = ["concat0", "concat1", "like", "padded", "nonzero", "where", "subset", "maskidx", "rslice_ra", "rslice_1d", "rslice_2d", "nps"]
 FLOOR_TAGS = ["op:" + o for o in OPS] + ["ends:none", "ends:inside", "ends:negative", "ends:beyond", "where:xy", "where:xs", "mask:allfalse", "mask:alltrue",
                                          "operand:norows", "operand:allempty", "side:left", "side:right", "recv:fresh", "recv:lazyrows", "recv:lazycols+2", "starts:none"]
-FLOOR_MONITORS = ["c08:compare"]
+FLOOR_MONITORS = ["c08:compare", "c08:arguments-unchanged"]
 N_RANDOM = {"quick": 30000, "thorough": 400000}
 
 
@@ -130,6 +130,7 @@ def run(case):
     if op == "padded":
         if n == 0:
             return undefined("no rows", tags)
+        first = attempt(lambda: ra.as_padded_matrix(fill_value=case["fill"], side="left" if case["side"] == "right" else "right"))   # an earlier conversion of the same object
         side, fv = case["side"], case["fill"]
         tags.append("side:" + side)
         M = max(lens)
@@ -176,6 +177,13 @@ def run(case):
         r = check_rows(a.value, exp, desc, tags, dt)
         if r:
             return r
+        # the caller's starts / ends arrays are arguments, not scratch space: unchanged, and a second call with the same objects agrees
+        CTX.tick("c08:arguments-unchanged")
+        if (sa is not None and sa.tolist() != list(starts)) or (ea is not None and ea.tolist() != list(ends)):
+            return violated("%s modified its starts/ends arguments: now starts=%s ends=%s" % (desc, None if sa is None else sa.tolist(), None if ea is None else ea.tolist()), tags + ["argument-mutated"])
+        a2 = attempt(lambda: lib.ragged_slice(ra, sa, ea))
+        if not a2.ok or check_rows(a2.value, exp, desc, tags, dt):
+            return violated("%s called a second time with the same argument objects gives %s" % (desc, repr(a2) if not a2.ok else short(a2.value, 160)), tags + ["second-call-differs"])
         return held(tags, nontrivial) if unchanged() else violated("%s modified its operand" % desc, tags)
     # operations with a boolean ragged mask
     m = np.array(case["mask"], dtype=bool)
